@@ -447,6 +447,9 @@ def lmeasure_strategy(draw, tier):
     else:
         t = draw(gen_tree.tree_case(min_abs=2.0 ** -10, min_n=1, max_n=max_n, soma_root=True, mag=200.0))
     return {"tree": t, "binary": binary,
+            # how the measuring object was made: the option says which end of a compartment stands for it in the surface /
+            # volume measures; every quantity of the statement is a property of nodes and is the same for all of these
+            "lm": draw(st.sampled_from(["default", "default", "0", "kw0", "kw-1"])),
             # measured after the tree it was derived from (the same LMeasure object measures both)
             "derive": draw(st.sampled_from([None, None, None, "redirect", "sort", "copy-reparent"])),
             "derive_sel": [draw(st.integers(0, 10 ** 6)), draw(st.integers(0, 10 ** 6))]}
@@ -463,7 +466,10 @@ def run_lmeasure(case, ctx):
     parents = t["parents"]
     n = len(parents)
     tree = gen_tree.build_tree(t)
-    lm = LMeasure()
+    how_lm = case.get("lm", "default")
+    lm = {"default": LMeasure, "0": lambda: LMeasure(0), "kw0": lambda: LMeasure(compartment_point=0),
+          "kw-1": lambda: LMeasure(compartment_point=-1)}[how_lm]()
+    ctx.cls("lmeasure-made-with:" + how_lm)
     if case.get("derive"):
         t, tree = _derive(case, ctx, t, tree, lm)
         parents = t["parents"]
@@ -613,7 +619,8 @@ SUBCHECKS = [
         required={"root-off-origin": 200, "rmax>0": 300, "sholl-object-made-with-the-deprecated-step-argument": 100,
                   "front-end:same-feature-twice-in-one-request": 100}),
     Sub("lmeasure", lmeasure_strategy, run_lmeasure, quick=1500, thorough=16000, shards_quick=4,
-        required={"binary": 100, "general": 100, "bifurcations>=2": 50, "measured-tree-derived-from-a-measured-tree": 300}),
+        required={"binary": 100, "general": 100, "bifurcations>=2": 50, "measured-tree-derived-from-a-measured-tree": 300,
+                  "lmeasure-made-with:0": 100, "lmeasure-made-with:kw0": 100}),
     Sub("population", population_strategy, run_population, quick=400, thorough=3000, shards_quick=4,
         required={"differing-sizes": 40, "population:1": 5, "same-feature-asked-again-with-other-arguments": 40}),
 ]
